@@ -81,6 +81,68 @@ def enum_case(cid, lp, bases, poison5, poison):
     return "\n".join(lines) + "\n"
 
 
+def history_script(cid, rng, lp):
+    """verdict calls on ONE object with an edit history: calls, then rounds of (1-3 edits, sometimes a solve, DUMP, calls).
+    Returns (script, plan); plan = list of ('DUMP',) | ('CHG', kind, args) | ('CALL', op, cs, rs) | ('SOLVE',) in script order."""
+    n, m = len(lp["cols"]), len(lp["rows"])
+    lines = ["CASE %s" % cid, lp_block(lp), "DUMP"]
+    plan = [("DUMP",)]
+
+    def calls(k):
+        for _ in range(k):
+            cs, rs = random_basis(rng, lp, valid=rng.random() < 0.5)
+            for op in ("BOPT", "BDUAL"):
+                lines.append("%s %s %s" % (op, cs, rs))
+                plan.append(("CALL", op, cs, rs))
+    # the same few bases are asked again after every edit (a verdict that should flip is then in the sample)
+    fixed = [random_basis(rng, lp, valid=True) for _ in range(3)]
+
+    def fixed_calls():
+        for cs, rs in fixed:
+            for op in ("BOPT", "BDUAL"):
+                lines.append("%s %s %s" % (op, cs, rs))
+                plan.append(("CALL", op, cs, rs))
+    fixed_calls()
+    calls(2)
+    val = lambda: qs(F(rng.randint(-4, 5), rng.choice([1, 1, 1, 2, 3])))
+    for _ in range(rng.randint(1, 3)):
+        if rng.random() < 0.3:
+            lines.append("SOLVE " + rng.choice(["PRIMAL", "DUAL", "EXACT P"]))
+            plan.append(("SOLVE",))
+        for _ in range(rng.randint(1, 3)):
+            kind = rng.choice(["bound", "bound", "obj", "obj", "rhs", "coef", "sense", "objsense"])
+            if kind == "bound" and n:
+                which = rng.choice("LUB")
+                v = rng.choice([val(), val(), "inf" if which == "U" else ("-inf" if which == "L" else val())])
+                ln = "CHG bound %d %s %s" % (rng.randrange(n), which, v)
+            elif kind == "obj" and n:
+                ln = "CHG obj %d %s" % (rng.randrange(n), val())
+            elif kind == "rhs" and m:
+                ln = "CHG rhs %d %s" % (rng.randrange(m), val())
+            elif kind == "coef" and n and m:
+                ln = "CHG coef %d %d %s" % (rng.randrange(m), rng.randrange(n), val())
+            elif kind == "sense" and m:
+                ln = "CHG sense %d %s" % (rng.randrange(m), rng.choice("LGE"))
+            else:
+                ln = "CHG objsense %s" % rng.choice(["MIN", "MAX"])
+            lines.append(ln)
+            plan.append(("CHG",) + tuple(ln.split()[1:]))
+        if rng.random() < 0.2:
+            lines.append("SOLVE " + rng.choice(["PRIMAL", "DUAL"]))
+            plan.append(("SOLVE",))
+        lines.append("DUMP")
+        plan.append(("DUMP",))
+        fixed_calls()
+        calls(2)
+    # QSexact_verify with the floating point prestep on the final problem, then the exact optimum of that problem
+    for cs, rs in fixed + [random_basis(rng, lp, valid=True)]:
+        lines.append("VERIFY 1 %s %s" % (cs, rs))
+        plan.append(("CALL", "VERIFY", cs, rs))
+    lines += ["SOLVE EXACT P", "ACCESS"]
+    plan.append(("FINAL",))
+    return "\n".join(lines) + "\n", plan
+
+
 def main():
     if len(sys.argv) > 2 and sys.argv[1] == "--replay":
         # python3 checks/C12.py --replay <file>: run one recorded script against the library built from /repo's working tree
@@ -208,6 +270,15 @@ def main():
                     ck.violation("singular_optimal_%s.txt" % qid, head + "BOPT %s %s\n" % (cs, rs),
                                  "QSexact_basis_optimalstatus answered 'optimal' for a singular basis (%s %s)" % (cs, rs),
                                  match=dict(kind="singular-optimal"))
+                # the same for the dual status (all three entry points): a singular basis has no basic solution, the answer is 'no'
+                # (the library used to repair the basis in LU pivot order and answer for the repaired one; that order is not modelled
+                # and, since the verdict functions refuse singular bases, no longer observable through them)
+                for nm, t in (("QSexact_basis_dualstatus (prepared stack)", d3), ("QSexact_basis_dualstatus", v0[0]), ("QSexact_verify (no prestep)", v0[1])):
+                    cv = verdict_c(t)
+                    bump("singular/C-bdual=%s" % (cv[1] if cv[0] == "res" else "err"))
+                    if cv[0] == "res" and cv[1] == 1:
+                        ck.violation("singular_dual_%s.txt" % qid, head + "%s %s %s\n" % (t[0], cs, rs),
+                                     "%s answered 'dual feasible' for a singular basis (%s %s)" % (nm, cs, rs), match=dict(kind="singular-dual-feasible"))
                 continue
             if not same(co, mo, False):
                 ck.violation("corr_bopt_%s.txt" % qid, head + "BOPT %s %s\n# model: %s  C: %s\n" % (cs, rs, mo, co),
@@ -386,22 +457,155 @@ def main():
                 ck.violation("warm_val_%s.txt" % cid, rscripts[cid], "warm start reports another optimal value", match=dict(kind="warm-value"))
         if len(ck.cov["samples"]) < 6:
             ck.sample(dict(lp=lp["name"], entry=entry, cfg=cfg, returned_basis=[cs, rs], exact_verdict=verdict, kkt=kkt, objval=v))
+
+    # ------------------------------------------------------------------ 3. verdict calls on an object with an edit history
+    hl = small_lp_family(rng, 300 if T else 40) + [planted_lp(rng, rng.randint(2, 5), rng.randint(2, 6), "small", name="H%d" % i) for i in range(150 if T else 20)]
+    hl = [lp for lp in hl if model_weight(lp) <= MODEL_WEIGHT_LIMIT]
+    hcases, hplans = [], {}
+    for li, lp in enumerate(hl):
+        cid = "h%d" % li
+        sc, plan = history_script(cid, rng, lp)
+        hcases.append((cid, sc))
+        hplans[cid] = (lp, plan)
+    t1 = time.time()
+    M3, houts, hcr = run_cases("h_fac", hcases, per_case_timeout=30)
+    print("# phase 3 harness %.1fs" % (time.time() - t1), file=sys.stderr)
+    hscripts = dict(hcases)
+    for cid, rc, err in hcr:
+        ck.violation("crash_%s.txt" % cid, hscripts[cid] + "\n# rc=%s\n# %s" % (rc, err[-1500:]), "h_fac crashed (rc %s) on verdict calls with an edit history (case %s)" % (rc, cid),
+                     match=dict(kind="crash"))
+    qs3, want3, finals = [], {}, {}
+    for cid, toks in houts.items():
+        lp, plan = hplans[cid]
+        if not any(t[0] == "LP" and t[1] == "OK" for t in toks):
+            continue
+        senses = [r[1] for r in lp["rows"]]
+        it = iter(toks)
+        cur_ilp, nedits, k = None, 0, 0
+        try:
+            for step in plan:
+                if step[0] == "DUMP":
+                    blk = []
+                    t = next(it)
+                    while t[0] != "ILP":
+                        t = next(it)
+                    blk.append(t)
+                    ncol = int(t[2])
+                    for _ in range(ncol + 1):
+                        blk.append(next(it))
+                    cur_ilp = "\n".join(" ".join(x) for x in blk)
+                elif step[0] == "CHG":
+                    t = next(it)
+                    while t[0] != "CHG":
+                        t = next(it)
+                    if t[1] == "0":
+                        nedits += 1
+                        if step[1] == "sense":
+                            senses[int(step[2])] = step[3]
+                    bump("history/edit-%s/rv=%s" % (step[1], t[1]))
+                elif step[0] == "SOLVE":
+                    t = next(it)
+                    while t[0] != "SOLVE":
+                        t = next(it)
+                elif step[0] == "FINAL":
+                    t = next(it)
+                    while t[0] != "SOLVE":
+                        t = next(it)
+                    st_fin = (int(t[2]), int(t[3]))
+                    t = next(it)
+                    while not (t[0] == "ACC" and t[1] == "objval"):
+                        t = next(it)
+                    finals[cid] = (st_fin, t[3] if t[2] == "0" else None)
+                else:
+                    _, op, cs, rs = step
+                    t = next(it)
+                    while t[0] != op:
+                        t = next(it)
+                    qid = "%s.%d" % (cid, k)
+                    k += 1
+                    sense = "".join(senses) or "-"
+                    qs3.append(basis_query(qid, "bopt" if op == "BOPT" else "bdual %d" % NEUTRAL_G, cur_ilp, sense, cs, rs))
+                    want3[qid] = (cid, op, cs, rs, t, nedits, int(cur_ilp.split()[1]))
+        except StopIteration:
+            ck.violation("truncated_%s.txt" % cid, hscripts[cid], "harness output of history case %s is truncated" % cid, match=dict(kind="crash"))
+    t1 = time.time()
+    ans3 = model_queries(qs3, M3 or M)
+    print("# phase 3 model %.1fs (%d queries)" % (time.time() - t1, len(qs3)), file=sys.stderr)
+    nhist = 0
+    for qid, (cid, op, cs, rs, t, nedits, ismax) in want3.items():
+        with_d = op != "BOPT"
+        mv = verdict_m(ans3.get(qid), with_d)
+        cv = verdict_c(t)
+        if mv is None:
+            ck.violation("model_%s.txt" % qid, hscripts[cid], "model driver gave no answer for %s" % qid, no_input=True)
+            continue
+        if op == "VERIFY":
+            # explored behaviour of the prestep path (not modelled): result 0 must mean 'not dual feasible' (the fall-back is the exact
+            # test); result 1 comes with a number that is either the exact dual objective of the basis (internal sign) or the verified
+            # optimal value of the LP reached by the double dual simplex from that basis
+            nhist += 1
+            fin = finals.get(cid)
+            tail = "# call VERIFY 1 %s %s: library %s, exact dual status of the basis %s, exact solve of the final problem %s\n" % (cs, rs, cv, mv, fin)
+            if cv[0] != "res":
+                bump("verify-prestep/rv!=0")
+                if mv[0] != "err":
+                    ck.violation("verify1_err_%s.txt" % qid, hscripts[cid] + tail, "QSexact_verify (useprestep=1) fails for a basis the loader accepts", match=dict(kind="verify-prestep-error"))
+                continue
+            if cv[1] == 0:
+                bump("verify-prestep/result=0,exact=%s" % (mv[1] if mv[0] == "res" else mv[0]))
+                if mv[0] == "res" and mv[1] == 1:
+                    ck.violation("verify1_miss_%s.txt" % qid, hscripts[cid] + tail, "QSexact_verify (useprestep=1) answers 'no' for a dual feasible basis (%s %s)" % (cs, rs), match=dict(kind="verify-prestep-misses"))
+                continue
+            d = fq(cv[2])
+            if mv[0] == "res" and mv[1] == 1 and d == fq(mv[2]):
+                bump("verify-prestep/result=1,value=exact-dual-objective-of-the-basis(internal-sign)")
+                continue
+            ov = fq(fin[1]) if fin and fin[0] == (0, 1) and fin[1] is not None else None
+            if ov is not None and d == ov:
+                bump("verify-prestep/result=1,value=LP-optimum(user-sign),basis-dual-feasible=%s" % (mv[1] if mv[0] == "res" else mv[0]))
+                if ismax and ov != 0:
+                    ck.violation("verify1_sign_%s.txt" % qid, hscripts[cid] + tail,
+                                 "QSexact_verify reports dobjval in the user's sign on the prestep path (%s) but in the internal (minimisation) sign on the fall-back path for the same MAX problem" % cv[2],
+                                 match=dict(kind="verify-prestep-sign"))
+                continue
+            if ov is not None and ismax and d == -ov:
+                bump("verify-prestep/result=1,value=LP-optimum(internal-sign)")
+                continue
+            ck.violation("verify1_value_%s.txt" % qid, hscripts[cid] + tail, "QSexact_verify (useprestep=1) reports result 1 with a value (%s) that is neither the dual objective of the basis nor the optimal value of the LP" % cv[2],
+                         match=dict(kind="verify-prestep-value"))
+            continue
+        nhist += 1
+        ck.count(("hist", hscripts[cid], qid), nontrivial=(mv[0] == "res" and nedits > 0))
+        if mv[0] == "sing":
+            bump("history/singular")
+            if cv[0] == "res" and cv[1] == 1:
+                ck.violation("hist_singular_%s.txt" % qid, hscripts[cid] + "# call %s %s %s\n" % (op, cs, rs),
+                             "%s answered 'yes' for a singular basis (%s %s) on an edited object" % (op, cs, rs), match=dict(kind="singular-optimal"))
+            continue
+        bump("history/after-%d-edits/%s" % (min(nedits, 3), "agree" if same(cv, mv, with_d) else "DIFFER"))
+        if not same(cv, mv, with_d):
+            ck.violation("hist_%s.txt" % qid, hscripts[cid] + "# call %s %s %s (after %d successful edits): exact answer for the CURRENT problem %s, library %s\n" % (op, cs, rs, nedits, mv, cv),
+                         "QSexact_basis_%s on an object with an edit history (%d edits before the call) answers %s for basis %s %s; the exact verdict of the current problem is %s "
+                         "(correspondence with Basis.lib_%s on the dump taken after the edits)" % ("optimalstatus" if op == "BOPT" else "dualstatus", nedits, cv, cs, rs, mv, "optimalstatus" if op == "BOPT" else "dualstatus"),
+                         match=dict(kind="corr-history"))
+    ck.cov["history_calls"] = nhist
     if not pr["ok"]:
         ck.violation("proof.txt", pr["log"], "proof obligation(s) of Properties_C12.v no longer check: %s" % pr["failed"], no_input=not ck.violations)
     ck.cov["rule"] = ("part 1: every (basic set, at-lower/at-upper/free of the rest) of small LPs (<= 3 rows x 4 columns; all bound shapes, senses incl. ranged, MIN/MAX, "
                       "duplicate/zero columns) plus random bases of LPs up to 7x9, each through QSexact_basis_optimalstatus, _dualstatus (stack prepared) and QSexact_verify; "
                       "verdict and dual bound compared with the extracted model; non-trivial = the basis is accepted by the loader and non-singular (a verdict exists); distinct by LP data + basis. "
                       "part 2: every basis returned with OPTIMAL by QSexact_solver / mpq_QSopt_primal / _dual under random pricing/scaling: count, exact basic solution = reported solution, "
-                      "verdict functions, warm start with 0 iterations")
+                      "verdict functions, warm start with 0 iterations. part 3: the same correspondence on ONE object with an edit history: verdict calls, then rounds of 1-3 edits (bound, objective coefficient, rhs, coefficient, sense, objective sense; sometimes a solve in between), each followed by verdict calls for 5 bases judged by the model on the dump taken after the edits")
     ck.cov["histogram"] = dict(sorted(hist.items()))
     ck.cov["returned_bases_judged"] = nret
     ck.cov["returned_bases_confirmed"] = nconf
     ck.cov["returned_bases_singular"] = nsing
     ck.cov["exhaustive"] = False
     ck.cov["traces_validated_against_impl"] = nverd
-    ck.cov["evaluations"] = nverd + len(rcases)
-    ck.cov["not_covered"] = ("singular bases: the library repairs them in LU pivot order (not modelled), only 'never optimal' is checked; QSexact_verify with prestep (floating point path) "
-                             "is not modelled; dual feasibility of returned bases is explored, not proved")
+    ck.cov["evaluations"] = nverd + len(rcases) + nhist
+    ck.cov["not_covered"] = ("singular bases: no verdict in the model, the library must answer 'no' through every entry point (the repair order of ILLbasis_factor is not modelled; it is no longer "
+                             "observable through the verdict functions); QSexact_verify with prestep (floating point path) is explored, not modelled: result 0 must mean 'not dual feasible', result 1 must come "
+                             "with the exact dual objective of the basis or the verified optimum of the LP; dual feasibility of returned bases is explored, not proved")
     ck.assumptions = ["Coq kernel; extraction (ExtrOcamlBasic) + OCaml compiler", "harness h_fac + text protocol", "GMP = exact rational arithmetic",
                       "the LU factorization is replaced by exact Gauss-Jordan in the model (C13 covers the LU code)"]
     ck.finish(trusted_base=["coqc 8.16.1 kernel", "OCaml extraction (ExtrOcamlBasic only)", "harness h_fac.c + checks/C12.py + checks/fac_common.py"])
